@@ -46,7 +46,7 @@ def gen_configs(rng, box, n):
         method = rng.choice(["overlap", "distance"])
         cfg = {"method": method, "grid": rng.random() < 0.6}
         if method == "distance":
-            cfg["max_dist"] = rng.choice([None, None, "inf", 0, 0.0, 1.0, 2.5, 6.0, 1000.0])
+            cfg["max_dist"] = rng.choice([None, None, "inf", 0, 0.0, 1.0, 2.5, 6.0, 1000.0, -1])
         out.append(cfg)
     return out
 
